@@ -143,7 +143,10 @@ def gen_case(seed, tier='quick', index=1):
     knobs = {'copies': ncopies, 'first_ev': [evs[c][0] for c in range(ncopies)],
              'fail_on': rng.choice([1, 2, 4]) if faulty else None,
              'max_empty': rng.choice([100, 100, 1, 3]),
-             'decoy': rng.random() < 0.25}
+             'decoy': rng.random() < 0.25,
+             # how the models came to be (the statement says "a model")
+             'provenance': rng.choice(['compiled'] * 6 + ['extracted'] * 2 +
+                                      ['restored', 'restored+extracted'])}
     return {'property': ID, 'seed': seed, 'kind': 'sched', 'knobs': knobs,
             'world': world, 'ops': ops}
 
@@ -270,8 +273,30 @@ def run_sched(case, fs):
         if knobs.get('decoy'):
             worlds.run_decoy(world)
             bump('probe:decoy_model_first')
-        models = [worlds.world_model(world, stale=True)
-                  for _ in range(ncopies)]
+        how = knobs.get('provenance', 'compiled')
+
+        def make_model(cells=None):
+            m = worlds.world_model(world, cells=cells, stale=True)
+            if how == 'compiled':
+                return m
+            from xlcalculator import Model, ModelCompiler
+            try:
+                if 'restored' in how:
+                    m.persist_to_json_file('/simfs/c05.json')
+                    m = Model()
+                    m.construct_from_json_file('/simfs/c05.json',
+                                               build_code=True)
+                    fs.reset_op()
+                if 'extracted' in how:
+                    m = ModelCompiler.extract(
+                        m, list(world['order']) + list(world['names']))
+            except Exception:
+                bump('provenance_failed')
+                return worlds.world_model(world, cells=cells, stale=True)
+            return m
+        if how != 'compiled':
+            bump(f'probe:model_{how}')
+        models = [make_model() for _ in range(ncopies)]
         uf = UserFuncs(knobs.get('fail_on'))
         first = knobs.get('first_ev') or ['default'] * ncopies
         evs = {c: [(first[c % len(first)],
@@ -287,7 +312,7 @@ def run_sched(case, fs):
             # as a date of the *current* year (Excel does the same)
             key = (addr, kind, c, version[c], amb.clock.t // 86400)
             if key not in iso:
-                m = worlds.world_model(world, cells=inputs[c], stale=True)
+                m = make_model(inputs[c])
                 e = make_evaluator(m, kind, UserFuncs(None))
                 st = Stepper(max_steps=SAFETY_STEPS)
                 with st:
